@@ -191,3 +191,147 @@ class AsyncChannel(AsyncIterable[T]):
 
     # A special signal object for flushing the queue when the channel is closed
     __flush = object()
+
+
+# --- verification hook (add-only; inactive unless BETTERPROTO_VERIF_TRACE names a file) ---
+# Appends one JSON line per public call / return of a channel: the calling task, the
+# operation, the items offered / received (by a stable serial number) and closed().
+import os as _verif_os
+
+_VERIF_TRACE = _verif_os.environ.get("BETTERPROTO_VERIF_TRACE")
+
+if _VERIF_TRACE:  # pragma: no cover
+    import functools as _verif_functools
+    import json as _verif_json
+
+    _verif_items: dict = {}
+    _verif_seq = [0]
+
+    def _verif_item(obj) -> int:
+        key = id(obj)
+        if key not in _verif_items:
+            _verif_items[key] = (len(_verif_items) + 1, obj)  # keep a reference: ids stay unique
+        return _verif_items[key][0]
+
+    _verif_depth: dict = {}
+
+    def _verif_log(ch, ev: str, op: str, **kw) -> None:
+        try:
+            task = asyncio.current_task()
+        except RuntimeError:
+            task = None
+        # only the outermost call of a task is an event (send_from(close=True) calls close())
+        key = (id(ch), id(task))
+        if ev == "call":
+            _verif_depth[key] = _verif_depth.get(key, 0) + 1
+            if _verif_depth[key] > 1:
+                return
+        elif ev == "ret":
+            _verif_depth[key] = _verif_depth.get(key, 1) - 1
+            if _verif_depth[key] > 0:
+                return
+        _verif_seq[0] += 1
+        rec = {
+            "seq": _verif_seq[0],
+            "pid": _verif_os.getpid(),
+            "ch": id(ch),
+            "t": task.get_name() if task is not None else "main",
+            "ev": ev,
+            "op": op,
+            "closed": bool(ch._closed),
+        }
+        rec.update(kw)
+        with open(_VERIF_TRACE, "a") as fh:
+            fh.write(_verif_json.dumps(rec) + "\n")
+
+    def _verif_outcome(exc) -> str:
+        if exc is None:
+            return "ok"
+        if isinstance(exc, asyncio.CancelledError):
+            return "Cancelled"
+        if isinstance(exc, StopAsyncIteration):
+            return "StopIter"
+        return type(exc).__name__
+
+    def _verif_wrap_receive(name, op):
+        fn = getattr(AsyncChannel, name)
+
+        @_verif_functools.wraps(fn)
+        async def wrapper(self):
+            _verif_log(self, "call", op, items=[], close=False)
+            try:
+                result = await fn(self)
+            except BaseException as exc:
+                _verif_log(self, "ret", op, r=_verif_outcome(exc), v=0)
+                raise
+            if result is None:
+                _verif_log(self, "ret", op, r="None", v=0)
+            else:
+                _verif_log(self, "ret", op, r="item", v=_verif_item(result))
+            return result
+
+        setattr(AsyncChannel, name, wrapper)
+
+    def _verif_wrap_send():
+        fn = AsyncChannel.send
+
+        @_verif_functools.wraps(fn)
+        async def wrapper(self, item):
+            _verif_log(self, "call", "send", items=[_verif_item(item)], close=False)
+            try:
+                result = await fn(self, item)
+            except BaseException as exc:
+                _verif_log(self, "ret", "send", r=_verif_outcome(exc), v=0)
+                raise
+            _verif_log(self, "ret", "send", r="ok", v=0)
+            return result
+
+        AsyncChannel.send = wrapper
+
+    def _verif_wrap_send_from():
+        fn = AsyncChannel.send_from
+
+        @_verif_functools.wraps(fn)
+        async def wrapper(self, source, close=False):
+            if isinstance(source, AsyncIterable):
+                inner = source
+
+                async def offered():
+                    async for item in inner:
+                        _verif_log(self, "offer", "sendfrom", items=[_verif_item(item)], close=False)
+                        yield item
+
+                _verif_log(self, "call", "sendfrom", items=[], close=bool(close))
+                source = offered()
+            else:
+                source = list(source)
+                _verif_log(
+                    self, "call", "sendfrom", items=[_verif_item(i) for i in source], close=bool(close)
+                )
+            try:
+                result = await fn(self, source, close)
+            except BaseException as exc:
+                _verif_log(self, "ret", "sendfrom", r=_verif_outcome(exc), v=0)
+                raise
+            _verif_log(self, "ret", "sendfrom", r="ok", v=0)
+            return result
+
+        AsyncChannel.send_from = wrapper
+
+    def _verif_wrap_close():
+        fn = AsyncChannel.close
+
+        @_verif_functools.wraps(fn)
+        def wrapper(self):
+            _verif_log(self, "call", "close", items=[], close=False)
+            result = fn(self)
+            _verif_log(self, "ret", "close", r="ok", v=0)
+            return result
+
+        AsyncChannel.close = wrapper
+
+    _verif_wrap_receive("receive", "recv")
+    _verif_wrap_receive("__anext__", "next")
+    _verif_wrap_send()
+    _verif_wrap_send_from()
+    _verif_wrap_close()
